@@ -117,15 +117,21 @@ func (s *Sim) catchup(st kernel.Step) {
 			run.Probe("headers_ahead_of_blocks")
 		}
 		j := int(abs(st.Arg(1))) % (top - from)
+		if j == 0 && top-from > 1 && abs(st.Arg(1))%2 == 1 {
+			j = 1
+		}
 		for i := from + 1; i <= from+j; i++ {
 			if !applyBlock(i) {
 				return
 			}
 		}
 		from += j
-		s.byzantineHeader(nd, uint32(top), int(abs(st.Arg(2))), abs(st.Arg(3)))
-		if s.Dead {
-			return
+		// every refusable kind first (a refused header leaves everything unchanged), the plan's kind last
+		for _, k := range []int{3, 4, 1, 2, int(abs(st.Arg(2)))} {
+			s.byzantineHeader(nd, uint32(top), k, abs(st.Arg(3)))
+			if s.Dead {
+				return
+			}
 		}
 	case 2: // sibling header at from+1, then the real block, then a child of the sibling
 		real := s.Blocks[from].Block
